@@ -78,3 +78,22 @@ Example accepting_run_exists :
   In 1 (r_revoked (run_of tag_inj (s0 tag_inj) 10%Z (rev_fetch tag_inj) no_faults)) /\
   r_live (run_of tag_inj (s0 tag_inj) 10%Z (rev_fetch tag_inj) no_faults) = [kB].
 Proof. vm_compute. auto. Qed.
+
+(* the one-tag hypothesis of accepted_revocation_immediate is necessary: the same public key configured
+   under two flags values (257 and 1) gives two entries of one material; revoking the 257 form leaves the
+   other one published by the accepting run (the next run's precedence pass removes it).  Replayed on the
+   Go code by the driver (kind dualflags). *)
+Definition tag_fl (k : key) : N := k_mat k * 1000 + k_flags k.
+Definition kA1 := mk_key 1 1.
+Lemma accepted_revocation_immediate_needs_one_tag :
+  exists tag s now fe key,
+    let r := run_of tag s now fe no_faults in
+    In 1 (r_revoked r) /\ In key (r_live r) /\ k_mat key = 1 /\
+    (* and only for that one run *)
+    ~ In key (s_live (step tag (step tag s (ERun now fe no_faults)) (ERun (now + 1)%Z FErr no_faults))).
+Proof.
+  exists tag_fl,
+         (step tag_fl (mk_sys [kA; kA1; kB] [kA; kA1; kB] empty_disk) (ERun 0 (FResp [kA; kA1; kB] [sg tag_fl kA; sg tag_fl kB]) no_faults)),
+         10%Z, (FResp [kA'; kA1; kB] [sg tag_fl kA'; sg tag_fl kB]), kA1.
+  vm_compute. repeat split; auto. intros H; repeat (destruct H as [H|H]; [discriminate|]); destruct H.
+Qed.
